@@ -418,4 +418,83 @@ example :
       (2005, 2015), (2015, 2029)] = false ∧
     Spec.boundOKIv 3600000 1 50 [(0, 8), (21, 40), (8, 52), (40, 72)] = false := by decide
 
+/-- **C18.6** `hook_set_independent` — "for a hook configured with I and B …; hooks without settings are not
+throttled" holds for EVERY hook of the operator: in a hooks directory with any number of hooks, whatever
+their names (relative paths) and whatever the settings of the others, the executions of hook `j` are granted
+by the limiter built from ITS configuration, fed with ITS requests only — the requests of the other hooks,
+interleaved in any way, change nothing (`Manager.loadHook` keeps what `Hook.LoadConfig` built; no index of
+limiters: `load_config_shape`). -/
+theorem hook_set_independent (cfgs : List (String × HookCfg)) (j : Nat) (name : String) (cfg : HookCfg)
+    (hj : cfgs[j]? = some (name, cfg)) (rs : List (Nat × Int)) :
+    setGrants (loadHooks cfgs) j ((loadHooks cfgs).map init) rs
+      = grants (hookLimiter cfg) (init (hookLimiter cfg)) ((rs.filter fun r => r.1 == j).map (·.2)) := by
+  have hl : (loadHooks cfgs)[j]? = some (hookLimiter cfg) := by simp [loadHooks, hj]
+  exact setGrants_eq _ j _ hl rs _ _ (by simp [hl])
+
+/-- **C18 for every hook of a directory**: hook `j` has `settings {I, B}` (`I > 0`, `B ≥ 0`, 0 meaning 1) and any
+bindings; the other hooks have any names and any settings (the same, others, none); requests of all hooks in
+any interleaving, times non-decreasing: the executions of hook `j` in any window number at most `B + ⌈T/I⌉`. -/
+theorem hook_set_bound (cfgs : List (String × HookCfg)) (j : Nat) (name : String) (i b : Int) (bs : List BindKind)
+    (hj : cfgs[j]? = some (name, { settings := some (i, b), bindings := bs })) (hi : 0 < i) (hb : 0 ≤ b)
+    (rs : List (Nat × Int)) (hsorted : (rs.map (·.2)).Pairwise (· ≤ ·)) (h0 : ∀ u ∈ rs.map (·.2), 0 ≤ u)
+    (t T : Int) (hT : 0 ≤ T) :
+    (Spec.countIn (setGrants (loadHooks cfgs) j ((loadHooks cfgs).map init) rs) t T : Int)
+      ≤ (if b = 0 then 1 else b) + ceilDiv T i := by
+  rw [hook_set_independent cfgs j name _ hj rs]
+  have hsub : ((rs.filter fun r => r.1 == j).map (·.2)).Sublist (rs.map (·.2)) :=
+    (List.filter_sublist (l := rs)).map _
+  exact hook_settings_bound i b hi hb bs _ (hsorted.sublist hsub) (fun u hu => h0 u (hsub.subset hu)) t T hT
+
+/-- … and a hook of the directory WITHOUT settings is never delayed, whatever limits its neighbours have. -/
+theorem hook_set_unthrottled (cfgs : List (String × HookCfg)) (j : Nat) (name : String) (bs : List BindKind)
+    (hj : cfgs[j]? = some (name, { settings := none, bindings := bs })) (rs : List (Nat × Int)) :
+    setGrants (loadHooks cfgs) j ((loadHooks cfgs).map init) rs = (rs.filter fun r => r.1 == j).map (·.2) := by
+  rw [hook_set_independent cfgs j name _ hj rs]
+  exact hook_without_settings_unthrottled bs _ _
+
+/-- **C18.7** `ops_bound` — "within ANY time window": the whole life of the operator, not only the moments the
+`HookRun` handler is looked at. The tasks of a hook of every type, in any order and at any times —
+`EnableKubernetesBindings` (which queues one Synchronization run per binding, any number), `EnableScheduleBindings`,
+anything else, and `HookRun`s before, between and after them, after pauses of any length —: the handlers of the
+other task types leave the limiter and its state alone (`ops_limiter_constant`; `load_config_shape`: no
+`SetLimit` / `SetBurst` in the repository), so the window bound holds with the configured `B` for ever. -/
+theorem ops_bound (l : Lim) (hinf : l.inf = false) (hI : 0 < l.I) (hB : 1 ≤ l.B) (os : List OpTask)
+    (hsorted : ((os.filterMap OpTask.hookRun?).map (·.task.t)).Pairwise (· ≤ ·))
+    (h0 : ∀ u ∈ (os.filterMap OpTask.hookRun?).map (·.task.t), 0 ≤ u) (t T : Int) (hT : 0 ≤ T) :
+    (Spec.countIn (runOps l (init l) os) t T : Int) ≤ l.B + ceilDiv T l.I := by
+  rw [runOps_eq_runQTasks]
+  exact series_bound l hinf hI hB _ hsorted h0 t T hT
+
+/-- Whatever the task, the hook's limiter after its handler is the one the hook was loaded with; and a task
+that is not a `HookRun` leaves the limiter's state alone and starts nothing. -/
+theorem ops_limiter_constant (l : Lim) (s : LState) (o : OpTask) :
+    (opStep l s o).1.1 = l ∧
+    ((∀ q, o ≠ .hookRun q) → (opStep l s o).1 = (l, s) ∧ (opStep l s o).2 = []) := by
+  cases o with
+  | hookRun q => exact ⟨rfl, fun h => absurd rfl (h q)⟩
+  | enableKubernetesBindings n => exact ⟨rfl, fun _ => ⟨rfl, rfl⟩⟩
+  | enableScheduleBindings => exact ⟨rfl, fun _ => ⟨rfl, rfl⟩⟩
+  | other => exact ⟨rfl, fun _ => ⟨rfl, rfl⟩⟩
+
+/-- Non-vacuity. Two hooks whose names differ in a separator only, `fast-a.sh` without settings and `fast_a.sh`
+with `I = 10`, `B = 2`, requests alternating: the first is never delayed, the second gets `0, 0, 10, 20`; what a
+shared limiter would show for the second (all at once) is rejected by the oracle. Start-up of a hook with four
+kubernetes bindings (`I = 10`, `B = 1`): four Synchronization runs 10 apart, a pause of 60, then four events at
+once: one starts at once, the others 10 apart — the bucket did not grow to four; the trace a burst raised to the
+number of bindings produced (`I = 300 ms`, `B = 1`, six queues, in ms: six executions within 260 ms of the first
+object) is rejected by the interval oracle. -/
+example :
+    (let cfgs : List (String × HookCfg) := [("fast-a.sh", ⟨none, [.onStartup]⟩), ("fast_a.sh", ⟨some (10, 2), [.onStartup]⟩)]
+     let rs : List (Nat × Int) := [(0, 0), (1, 0), (0, 0), (1, 0), (0, 1), (1, 1), (0, 1), (1, 2)]
+     setGrants (loadHooks cfgs) 0 ((loadHooks cfgs).map init) rs = [0, 0, 1, 1] ∧
+     setGrants (loadHooks cfgs) 1 ((loadHooks cfgs).map init) rs = [0, 0, 10, 20]) ∧
+    Spec.boundOK 10 2 [0, 0, 10, 20] = true ∧ Spec.boundOK 10 2 [0, 0, 1, 2] = false ∧
+    (let l := createRateLimiter (some (10, 1))
+     let sy (t : Int) : OpTask := .hookRun ⟨⟨.synchronization, t, .ok, true⟩, none, 0⟩
+     let ev (t : Int) : OpTask := .hookRun ⟨⟨.kubeEvent, t, .ok, true⟩, none, 0⟩
+     runOps l (init l) [.enableKubernetesBindings 4, sy 0, sy 0, sy 10, sy 20, .enableScheduleBindings, ev 90, ev 90, ev 90, ev 90]
+       = [0, 10, 20, 30, 90, 100, 110, 120]) ∧
+    Spec.boundOKIv 300 1 50 [(0, 110), (110, 410), (410, 710), (710, 1010), (1010, 1310), (1310, 1610),
+      (3700, 3930), (3700, 3931), (3700, 3931), (3700, 3940), (3700, 3952), (3700, 3960)] = false := by decide
+
 end ShellOp.RateLimit.C18
